@@ -17,6 +17,14 @@ CHECKS = {
  "C07": ("S", "model_checking", "exhaustive exploration of schedules (incl. stalls, so each request's own max-pause timer can land before or after the next command) of pause/resume/stop/redeploy sequences vs requests; each request must be explained by some arrival point of a sequential gate model", "3 C07", "stateless model checking (controlled scheduler) + per-request linearisation against a sequential gate model", S_NOTE),
  "C09": ("S", "model_checking", "exhaustive exploration of schedules of probe completions vs request bursts over enumerated per-target probe scripts; oracle: membership in the healthy set derived from probe results, 503 when empty, strict rotation, probe cadence", "3 C09", "stateless model checking (controlled scheduler, deviation-bounded DFS) of the implementation", S_NOTE),
  "C11": ("H", "model_checking", "restart is a transition of the history search; every history up to the depth bound containing a restart; the reference model is unchanged by restart, so every later observation (routing, TLS policy, gate incl. held-request drill, rollout split, options, probed targets, list) must equal the model", "3 C11", "explicit-state enumeration of command histories with restart transitions on the real router against a reference model", H_NOTE),
+ "C04": ("E", "model_checking", "small-scope exhaustive enumeration: every conflict-free table of 2 (and 3) services over a binding universe, every deploy order plus remove/redeploy/move/restart variants, 12x12 request matrix, against a 25-line reference routing function", "3 C04", "exhaustive small-scope enumeration of service tables and command orders on the real router against a reference routing function", H_NOTE),
+ "C08": ("S+H", "model_checking", "engine H: every history up to the depth bound over stop (7 messages), pause, resume, redeploy, rollout, restart x 4 error-page configurations, probe set incl. exact/inexact health path; engine S: a gate command completing while the same service is redeployed, every schedule within the bound", "3 C08", "explicit enumeration of command histories against a gate model + stateless model checking of overlapping commands", S_NOTE + "; " + H_NOTE),
+ "C10": ("E+H", "model_checking", "engine E: every cookie value of length<=3 over a 4-letter alphabet x all 101 percentages x allowlists through the real handler chain (monotone, sticky, 100% total, allowlist, cookie shapes vs an independent parser, unchanged by redeploys and restart), share of 20k/100k ids at every percentage; engine H: rollout command histories against the reference model", "3 C10", "exhaustive small-scope enumeration with metamorphic oracles + history enumeration against a reference model", H_NOTE + "; the share clause is decided for the fixed id population only (DESIGN.md section 4)"),
+ "C13": ("E", "model_checking", "small-scope exhaustive enumeration of raw requests (every path of <=3/<=4 segments over 9 segment shapes x 4 mounts x 8 raw queries, look-alikes, methods x bodies x 10 responses x header sets x header forwarding) through Server.buildHandler and the real http.Transport to an in-memory echo target; wire request and client response compared byte for byte", "3 C13", "exhaustive small-scope input enumeration through the real handler chain against an independent expectation", H_NOTE),
+ "C14": ("E", "model_checking", "level 1: Buffer with every composition of the body into write chunks for all small (memory limit, total limit, length) triples; level 2: buffering on/off x limits x lengths x chunk patterns x endings x {plain, event stream, upgrade} through the handler chain with virtual-time gaps", "3 C14", "exhaustive small-scope enumeration (all chunk compositions) against a bytes.Buffer reference + timing on the virtual clock", H_NOTE),
+ "C15": ("F", "fault_enumeration", "every byte offset of the header block (and chunk boundaries, strided body offsets) of 4 scripted responses x {close, stall, garbage}, dial refusal, delays around the target timeout, x buffering x error-page configurations; 502/504 at the exact virtual time with the right page, or a visibly incomplete response; no residue", "3 C15", "exhaustive fault-point enumeration on the real proxy path over an in-memory network", H_NOTE),
+ "C16": ("H+E", "model_checking", "histories over root/sub-path services with every TLS/redirect/static-certificate setting, remove, restart; after each: scheme x Host x path/query matrix against the policy computed from the SET of services, GetCertificate for 7 server names; automatic-TLS boundary (host policy, wildcard refusal) without network", "3 C16", "explicit enumeration of command histories against a reference TLS-policy model", H_NOTE + "; certificate issuance (ACME) needs the network and is outside the check"),
+ "C19": ("E", "model_checking", "23 request endings x method x query x request-id x 5 log-header configurations through Server.buildHandler with a capturing slog handler; exactly one record per request, every field equal to what client and target observed", "3 C19", "exhaustive enumeration of request endings through the real handler chain against observed client/target facts", H_NOTE),
  "C17": ("S", "model_checking", "stall bound 0 so that virtual elapsed time is exact; return time of every command EQUAL to a reference simulator (probe ticker, first 2xx, remaining in-flight time) over probe scripts x in-flight sets x three timeout triples; zero probes to removed/replaced/rejected targets in the settle window", "3 C17", "stateless model checking (controlled scheduler, preemption-bounded, virtual clock) of the implementation against a reference timing simulator", S_NOTE),
 }
 checks = []
@@ -43,6 +51,7 @@ m = {
  "engines": [
   {"name": "S", "path": "shim/vsched + harness/engine_s.go", "serves_properties": [p for p, c in sorted(CHECKS.items()) if "S" in c[0]], "kind_free_text": "controlled scheduler in a synctest bubble; stateless deviation-bounded DFS over the real implementation; 16 worker processes"},
   {"name": "H", "path": "harness/h_engine.go + harness/h_model.go", "serves_properties": [p for p, c in sorted(CHECKS.items()) if "H" in c[0]], "kind_free_text": "explicit enumeration of command histories on fresh real routers, reference model as oracle"},
+  {"name": "E/F", "path": "harness/engine_e.go", "serves_properties": [p for p, c in sorted(CHECKS.items()) if "E" in c[0] or "F" in c[0]], "kind_free_text": "exhaustive small-scope enumeration of inputs / fault points through Server.buildHandler, real http.Transport and in-memory scripted targets"},
  ],
  "checks": checks,
  "not_applicable": na,
